@@ -1,7 +1,7 @@
 (* C01Theorems.v — the property theorems of C01 (decode then encode is lossless outside reserved fields).
    Each is closed by `exact <lemma>` and followed by Print Assumptions (audited by ./check on every run). *)
 From V.lib Require Import Base.
-From V.c01 Require Import C01Codec C01Model C01LeafProofs C01Leaf2Proofs C01Leaf3Proofs C01Leaf4Proofs C01Leaf5Proofs C01TableProofs C01TreeProofs C01WhyProofs C01Witness C01Witness3
+From V.c01 Require Import C01Codec C01Model C01LeafProofs C01Leaf2Proofs C01Leaf3Proofs C01Leaf4Proofs C01Leaf5Proofs C01Leaf6Proofs C01TableProofs C01TreeProofs C01WhyProofs C01Witness C01Witness3
   C01RealFiles C01RealWitness C01SizeProofs C01LocalProofs C01StableProofs C01FixProofs C01Witness4 C01EsdsProofs C01SgpdProofs C01Witness5
   C01FileModel C01FileProofs C01FileExamples C01FileWitness C01Witness6.
 
@@ -102,8 +102,9 @@ Print Assumptions C01_leaf_lossless_stage3.
    vtte, vsid; vttC vlab ctim iden sttg payl vtta are entries of leaf_table decoded by dec_free; MetaBox: dec_fullonly as the
    ISO prefix, the QuickTime form is a pure container chosen by meta_qt (the look-ahead of DecodeMetaSR) in decode *)
 Theorem C01_leaf_lossless_stage5 :
-  leaf_lossless dec_data /\ leaf_lossless dec_mime /\ leaf_lossless dec_wvtt /\ leaf_lossless dec_empty /\ leaf_lossless dec_b4.
-Proof. exact (conj lossless_data (conj lossless_mime (conj lossless_wvtt (conj lossless_empty lossless_b4)))). Qed.
+  leaf_lossless dec_data /\ leaf_lossless dec_mime /\ leaf_lossless dec_wvtt /\ leaf_lossless dec_empty /\ leaf_lossless dec_b4 /\
+  leaf_lossless dec_dac3 /\ leaf_lossless dec_dec3.
+Proof. exact (conj lossless_data (conj lossless_mime (conj lossless_wvtt (conj lossless_empty (conj lossless_b4 (conj lossless_dac3 lossless_dec3)))))). Qed.
 Print Assumptions C01_leaf_lossless_stage5.
 
 (* stage 2 leaf kinds *)
@@ -422,3 +423,16 @@ Print Assumptions C01_esds_size_overflow_refuted.
 Theorem C01_sgpd_seig_reserved_refuted : refutes w_sgpd_seig_rsv [(n_sgpd, RGuard); (n_sgpd, RRsv true 0)].
 Proof. exact sgpd_seig_rsv_refuted. Qed.
 Print Assumptions C01_sgpd_seig_reserved_refuted.
+
+(* dac3 / dec3 (AC-3 and E-AC-3 specific boxes, read through bits.Reader): typed, exact, fixed points; their guards exclude a dac3
+   payload that is not InitialZeroes + 3 bytes (accepted: the bit reader's error is not looked at; C01-K73) and dec3 substreams
+   whose reserved bits are not 0 (dropped by the decoder; C01-K58) *)
+Example C01_ex_dac3_dec3 : fixed_point ex_dac3 /\ fixed_point ex_dac3_zeroes /\ fixed_point ex_dec3 /\
+  match treeof ex_dec3 with MLeaf _ (LDec3 384 [(0, 16, 0, 0, 7, 1, 1, 289); (1, 16, 1, 0, 7, 0, 0, 0)] [170] true) _ => True | _ => False end.
+Proof. exact (conj (proj1 ex_dac3_ok) (conj (proj1 (proj2 ex_dac3_ok)) ex_dec3_ok)). Qed.
+Theorem C01_dac3_short_refuted : refutes w_dac3_short [(n_dac3, RSizeSmall); (n_dac3, RGuard)].
+Proof. exact dac3_short_refuted. Qed.
+Print Assumptions C01_dac3_short_refuted.
+Theorem C01_dec3_reserved_refuted : refutes w_dec3_rsv [(n_dec3, RGuard)].
+Proof. exact dec3_rsv_refuted. Qed.
+Print Assumptions C01_dec3_reserved_refuted.
